@@ -86,6 +86,43 @@ pub fn gen_tree<C: Combo>(rng: &mut Rng, height: u32, leaves: &mut Leaves<C>, sm
       _ => Tree::Minus(x, y),
     };
   }
+  // 1 in 6: a binary operator over the two HALVES of one MOC cut at a random point (inside a range: the
+  // halves touch exactly; at a gap: they are separated), in either order and with any leaf kinds — operands
+  // with disjoint extents, the configuration every "one operand entirely before the other" fast path tests
+  if rng.chance(1, 6) {
+    let d = if small { if C::QNAME == "hpx" { 1 } else { 3 } } else { rng.below(max_depth as u64 + 1) as u8 };
+    let unit = cell_size::<C::T, C::Q>(d);
+    let whole = random_moc_ranges::<C::T, C::Q>(rng, d, 6);
+    if let (Some(first), Some(last)) = (whole.first(), whole.last()) {
+      let (lo_c, hi_c) = (first.start / unit, last.end / unit);
+      let cut = (lo_c + rng.below(hi_c - lo_c + 1)) * unit;
+      let mut low: Vec<Range<u64>> = Vec::new();
+      let mut high: Vec<Range<u64>> = Vec::new();
+      for r in &whole {
+        if r.end <= cut { low.push(r.clone()); }
+        else if r.start >= cut { high.push(r.clone()); }
+        else { low.push(r.start..cut); high.push(cut..r.end); }
+      }
+      for rs in [low, high] {
+        let m: RangeMOC<C::T, C::Q> = mk_moc(d, &rs);
+        let mut kind = rng.below(N_KINDS);
+        if kind == 5 && m.n_depth_max_cells().to_u64_idx_safe() > 4096 {
+          kind = 1;
+        }
+        leaves.mocs.push(m);
+        leaves.kinds.push(kind);
+      }
+      let il = leaves.mocs.len() - 2;
+      let (x, y) = (Box::new(Tree::Leaf(il)), Box::new(Tree::Leaf(il + 1)));
+      let (x, y) = if rng.chance(1, 2) { (x, y) } else { (y, x) };
+      return match rng.below(5) {
+        0 => Tree::And(x, y),
+        1 | 2 => Tree::Or(x, y),
+        3 => Tree::Xor(x, y),
+        _ => Tree::Minus(x, y),
+      };
+    }
+  }
   let mut sub = |rng: &mut Rng, leaves: &mut Leaves<C>| Box::new(gen_tree::<C>(rng, height - 1, leaves, small));
   match rng.below(8) {
     0 | 1 => {
@@ -187,7 +224,7 @@ pub fn emit_valid<C: Combo>(sink: &mut Sink, tag: &str, m: &RangeMOC<C::T, C::Q>
 }
 
 fn trees<C: Combo>(sink: &mut Sink, rng: &mut Rng, thorough: bool) {
-  let n = if thorough { 4000 } else { 350 };
+  let n = if thorough { 12000 } else { 350 };
   let max_h = if thorough { 8 } else { 5 };
   for i in 0..n {
     let small = i % 2 == 0;
@@ -221,7 +258,7 @@ fn producers<C: Combo>(sink: &mut Sink, rng: &mut Rng, thorough: bool) {
     emit_valid::<C>(sink, "new_full_domain", &RangeMOC::<C::T, C::Q>::new_full_domain(d));
     emit_valid::<C>(sink, "new_empty", &RangeMOC::<C::T, C::Q>::new_empty(d));
   }
-  let n = if thorough { 3000 } else { 300 };
+  let n = if thorough { 9000 } else { 300 };
   for _ in 0..n {
     let d = rng.below(max_depth as u64 + 1) as u8;
     let ncell = n_cells::<C::T, C::Q>(d);
